@@ -10,6 +10,7 @@ mkdir -p .overlay
 for id in $ids; do
   for m in mutants/$id/*.diff seeded/$id/*/patch.diff; do
     [ -f "$m" ] || continue
+    if [ -n "${ONLY_PATTERN:-}" ] && ! echo "$m" | grep -q "$ONLY_PATTERN"; then continue; fi
     s=$(date +%s)
     out=$(timeout 3600 ./vcheck $id --mutant $m 2>&1)
     rc=$?
